@@ -16,7 +16,7 @@ def slippage_guard(P, pr):
         if roles.is_workspace_fn(P, p):
             g = P.fn(p) or P.fn(generic_path(p))
             ns = names.norm_sig(g.sig) if g is not None and g.sig else None
-            if ns and ns[1] == names.res("()", N.ContractError) and "&std::option::Option<cosmwasm_std::Decimal>" in ns[0] and "&[%s; 2]" % N.Asset in ns[0] and (b, g) not in out:
+            if ns and ns[1] == names.res("()", N.ContractError) and any(x in ns[0] for x in ("&std::option::Option<cosmwasm_std::Decimal>", "std::option::Option<cosmwasm_std::Decimal>")) and any(x in ns[0] for x in ("&[%s; 2]" % N.Asset, "[%s; 2]" % N.Asset)) and (b, g) not in out:
                 out.append((b, g))
     if len(out) != 1:
         raise AnchorMissing("slippage guard (callee of the provide handler: fn(&Option<Decimal>, .., &[Asset; 2]) -> Result<(), ContractError>): %d found" % len(out))
